@@ -370,6 +370,39 @@ theorem hard_unsupported_counterexample :
     generate .ignore 3 p = .raised [5] 0 ∧ generate .warn 3 p = .raised [5] 0 ∧
     generate .raise 3 p = .raised [5] 0 ∧ generate .immediate 3 p = .raised [1] 0 ∧ gNoHard p = false := by decide +kernel
 
+/-- **without a return in `finally`, `preprocess` is exactly "report the transform's message, then go on"**: the direct
+    `raise UnsupportedError` of a transform is routed through `self.unsupported`, so every level theorem above applies to it
+    (under IMMEDIATE the raise propagates) -/
+theorem preprocess_propagates (raised : Option Msg) (rest : GComb) (s : GSt) :
+    preprocessStep false raised rest s =
+      match raised with
+      | none => gexec rest s
+      | some m => (unsupported m s).bind fun _ s1 => gexec rest s1 := by
+  cases raised with
+  | none => rfl
+  | some m => simp only [preprocessStep, GRes.bind]; cases unsupported m s <;> rfl
+
+theorem preprocess_immediate_raises (mx : Nat) (m : Msg) (rest : GComb) :
+    generatePre .immediate mx false (some m) rest = .raised [m] 0 ∧
+    (gNoHard rest = true → generatePre .warn mx false (some m) rest = .returned (gtext rest) (m :: gmsgs rest)) := by
+  refine ⟨by simp [generatePre, preprocessStep, unsupported], fun hn => ?_⟩
+  have := gexec_soft rest ⟨.warn, [m]⟩ (by simp) hn
+  simp [generatePre, preprocessStep, unsupported, this]
+
+/-- **witness: `finally: return expression` swallows the IMMEDIATE raise** (seeded regression C14-6): WARN logs the message,
+    RAISE raises, IMMEDIATE returns the SQL without raising — the contract "IMMEDIATE raises exactly when WARN logs" is broken -/
+theorem return_in_finally_swallows_immediate :
+    generatePre .warn 3 true (some 7) (.text "x") = .returned "x" [7] ∧
+    generatePre .raise 3 true (some 7) (.text "x") = .raised [7] 0 ∧
+    generatePre .immediate 3 true (some 7) (.text "x") = .returned "x" [] ∧
+    generatePre .immediate 3 false (some 7) (.text "x") = .raised [7] 0 := by decide +kernel
+
+/-- the source fact behind `preprocess_propagates`: nowhere between a raise site and its caller does a `return` / `break` /
+    `continue` sit in a `finally:` block, and the handlers that could swallow a sqlglot error are the audited ones -/
+theorem no_exception_swallowing_on_unsupported_path :
+    SqlglotModel.Generated.C14.exceptionFlowSites = expectedExceptionFlowSites ∧
+    (SqlglotModel.Generated.C14.exceptionFlowSites.filter fun e => e.2.2.1 == "jump-in-finally") = [] := by decide +kernel
+
 /-- `generate` starts from an empty message list: what an earlier call on the same Generator left behind is irrelevant -/
 theorem generate_resets_messages (l : Level) (mx : Nat) (p : GComb) (stale : List Msg) :
     generate l mx p stale = generate l mx p [] := rfl
